@@ -259,6 +259,9 @@ type serializedMTAccumulator struct {
 func (a *Accumulator) Flush() error {
 	roots := make([][]byte, len(a.roots))
 	for i, r := range a.roots {
+		if r == nil {
+			continue
+		}
 		if err := r.Flush(); err != nil {
 			return err
 		}
@@ -334,14 +337,16 @@ func (a *Accumulator) WitnessFor(idx int64) ([]Witness, error) {
 	}
 	offset := len(a.roots)
 	for offset > 0 {
-		inbound := int64(1) << uint(offset-1)
-		if idx < inbound {
-			witness := make([]Witness, 0, offset-1)
-			root, w, err := a.roots[offset-1].WitnessFor(offset-1, idx, witness)
-			a.roots[offset-1] = root
-			return w, err
+		if slot := a.roots[offset-1]; slot != nil {
+			inbound := int64(1) << uint(offset-1)
+			if idx < inbound {
+				witness := make([]Witness, 0, offset-1)
+				root, w, err := slot.WitnessFor(offset-1, idx, witness)
+				a.roots[offset-1] = root
+				return w, err
+			}
+			idx -= inbound
 		}
-		idx -= inbound
 		offset -= 1
 	}
 	return nil, errors.ErrNotFound
